@@ -343,6 +343,31 @@ pub fn peer_port(conn: usize) -> u16 {
     10000 + conn as u16
 }
 
+/// Address of the client of connection `conn`. Half of the runs: loopback, one port per connection.
+/// Otherwise clients come from many addresses (IPv4, IPv6, IPv4-mapped) and share a handful of
+/// source ports - the same port from different addresses at the same time, as behind any NAT - or
+/// use ports that wrap around 65535. An (address, port) pair is never used twice in a run.
+pub fn peer_sockaddr(seed: u64, conn: usize) -> SocketAddr {
+    use std::net::Ipv6Addr;
+    let h = mix(seed ^ 0x9ee5, 1);
+    match h % 4 {
+        2 => {
+            const PORTS: [u16; 3] = [40000, 51234, 1024];
+            let k = conn / PORTS.len();
+            let (a, b) = (((k / 4) % 256) as u8, (1 + (k / 4) / 256) as u8);
+            let ip = match k % 4 {
+                0 => IpAddr::V4(Ipv4Addr::new(10, 0, a, b)),
+                1 => IpAddr::V6(Ipv6Addr::new(0x2001, 0xdb8, 0, 0, 0, 0, a as u16, b as u16)),
+                2 => IpAddr::V4(Ipv4Addr::new(192, 168, a, b)),
+                _ => IpAddr::V6(Ipv4Addr::new(172, 16, a, b).to_ipv6_mapped()),
+            };
+            SocketAddr::new(ip, PORTS[conn % PORTS.len()])
+        }
+        3 => SocketAddr::new(IpAddr::V6(Ipv6Addr::LOCALHOST), (65530u32 + conn as u32) as u16),
+        _ => addr(peer_port(conn)),
+    }
+}
+
 impl Backend for SimBackend {
     fn sync_point(&self) {
         if let Some(w) = WORLD.get() {
@@ -479,7 +504,7 @@ impl Backend for SimBackend {
                 st.reach("addr_error_path");
                 Err(io::Error::from_raw_os_error(107)) // ENOTCONN
             } else {
-                Ok(addr(peer_port(stream)))
+                Ok(peer_sockaddr(w.sc.sched.seed, stream))
             }
         })
     }
@@ -718,6 +743,12 @@ impl Backend for SimBackend {
     fn dup(&self, stream: usize) -> io::Result<usize> {
         let w = world();
         w.with(|st| {
+            if st.conns[stream].faults.dup_err {
+                st.conns[stream].fired.push("dup_err".into());
+                st.log("dup_err", stream, 0);
+                st.reach("dup_error_path");
+                return Err(io::Error::from_raw_os_error(libc::EMFILE));
+            }
             st.conns[stream].handles += 1;
             Ok(stream)
         })
